@@ -234,6 +234,8 @@ class Emitter:
             return 'struct FwdIt'
         if name == 'vt::gen':
             return 'struct Gen'
+        if name == 'vt::pred':
+            return 'struct Pred'
         if n == 'small_vector_base':
             role = self.role(args[1])
             if rest is None:
@@ -1649,7 +1651,7 @@ class FnLower:
         return True
 
     def is_trivial_copy(self, tag):
-        return tag in ('svit', 'svcit', 'Alloc', 'InputIt', 'FwdIt', 'Gen', 'IList', 'ainl', 'ai', 'svdb') or tag.startswith('rev_')
+        return tag in ('svit', 'svcit', 'Alloc', 'InputIt', 'FwdIt', 'Gen', 'Pred', 'IList', 'ainl', 'ai', 'svdb') or tag.startswith('rev_')
 
     def is_trivial_default(self, tag):
         return tag in ('svit', 'svcit', 'svdb', 'InputIt', 'FwdIt') or tag.startswith(('svd', 'inl', 'rev_'))
